@@ -36,8 +36,14 @@ func CompareAndSwapPointer(addr *unsafe.Pointer, old, new unsafe.Pointer) bool {
 	return atomic.CompareAndSwapPointer(addr, old, new)
 }
 
-func LoadInt32(addr *int32) int32 { pt(unsafe.Pointer(addr), "LoadInt32"); return atomic.LoadInt32(addr) }
-func LoadInt64(addr *int64) int64 { pt(unsafe.Pointer(addr), "LoadInt64"); return atomic.LoadInt64(addr) }
+func LoadInt32(addr *int32) int32 {
+	pt(unsafe.Pointer(addr), "LoadInt32")
+	return atomic.LoadInt32(addr)
+}
+func LoadInt64(addr *int64) int64 {
+	pt(unsafe.Pointer(addr), "LoadInt64")
+	return atomic.LoadInt64(addr)
+}
 func LoadUint32(addr *uint32) uint32 {
 	pt(unsafe.Pointer(addr), "LoadUint32")
 	return atomic.LoadUint32(addr)
@@ -46,8 +52,14 @@ func LoadUint64(addr *uint64) uint64 {
 	pt(unsafe.Pointer(addr), "LoadUint64")
 	return atomic.LoadUint64(addr)
 }
-func StoreInt32(addr *int32, v int32) { pt(unsafe.Pointer(addr), "StoreInt32"); atomic.StoreInt32(addr, v) }
-func StoreInt64(addr *int64, v int64) { pt(unsafe.Pointer(addr), "StoreInt64"); atomic.StoreInt64(addr, v) }
+func StoreInt32(addr *int32, v int32) {
+	pt(unsafe.Pointer(addr), "StoreInt32")
+	atomic.StoreInt32(addr, v)
+}
+func StoreInt64(addr *int64, v int64) {
+	pt(unsafe.Pointer(addr), "StoreInt64")
+	atomic.StoreInt64(addr, v)
+}
 func StoreUint32(addr *uint32, v uint32) {
 	pt(unsafe.Pointer(addr), "StoreUint32")
 	atomic.StoreUint32(addr, v)
@@ -56,8 +68,14 @@ func StoreUint64(addr *uint64, v uint64) {
 	pt(unsafe.Pointer(addr), "StoreUint64")
 	atomic.StoreUint64(addr, v)
 }
-func AddInt32(addr *int32, d int32) int32 { pt(unsafe.Pointer(addr), "AddInt32"); return atomic.AddInt32(addr, d) }
-func AddInt64(addr *int64, d int64) int64 { pt(unsafe.Pointer(addr), "AddInt64"); return atomic.AddInt64(addr, d) }
+func AddInt32(addr *int32, d int32) int32 {
+	pt(unsafe.Pointer(addr), "AddInt32")
+	return atomic.AddInt32(addr, d)
+}
+func AddInt64(addr *int64, d int64) int64 {
+	pt(unsafe.Pointer(addr), "AddInt64")
+	return atomic.AddInt64(addr, d)
+}
 func AddUint32(addr *uint32, d uint32) uint32 {
 	pt(unsafe.Pointer(addr), "AddUint32")
 	return atomic.AddUint32(addr, d)
@@ -66,8 +84,14 @@ func AddUint64(addr *uint64, d uint64) uint64 {
 	pt(unsafe.Pointer(addr), "AddUint64")
 	return atomic.AddUint64(addr, d)
 }
-func SwapInt32(addr *int32, v int32) int32 { pt(unsafe.Pointer(addr), "SwapInt32"); return atomic.SwapInt32(addr, v) }
-func SwapInt64(addr *int64, v int64) int64 { pt(unsafe.Pointer(addr), "SwapInt64"); return atomic.SwapInt64(addr, v) }
+func SwapInt32(addr *int32, v int32) int32 {
+	pt(unsafe.Pointer(addr), "SwapInt32")
+	return atomic.SwapInt32(addr, v)
+}
+func SwapInt64(addr *int64, v int64) int64 {
+	pt(unsafe.Pointer(addr), "SwapInt64")
+	return atomic.SwapInt64(addr, v)
+}
 func CompareAndSwapInt32(addr *int32, o, n int32) bool {
 	pt(unsafe.Pointer(addr), "CompareAndSwapInt32")
 	return atomic.CompareAndSwapInt32(addr, o, n)
@@ -90,8 +114,8 @@ type Value struct {
 	real atomic.Value
 }
 
-func (v *Value) Load() any { pt(unsafe.Pointer(v), "Value.Load"); return v.real.Load() }
-func (v *Value) Store(val any) { pt(unsafe.Pointer(v), "Value.Store"); v.real.Store(val) }
+func (v *Value) Load() any        { pt(unsafe.Pointer(v), "Value.Load"); return v.real.Load() }
+func (v *Value) Store(val any)    { pt(unsafe.Pointer(v), "Value.Store"); v.real.Store(val) }
 func (v *Value) Swap(new any) any { pt(unsafe.Pointer(v), "Value.Swap"); return v.real.Swap(new) }
 func (v *Value) CompareAndSwap(old, new any) bool {
 	pt(unsafe.Pointer(v), "Value.CompareAndSwap")
@@ -101,8 +125,8 @@ func (v *Value) CompareAndSwap(old, new any) bool {
 // Bool, Int32, Int64, Uint32, Uint64 and Pointer mirror the typed atomics.
 type Bool struct{ real atomic.Bool }
 
-func (x *Bool) Load() bool   { pt(unsafe.Pointer(x), "Bool.Load"); return x.real.Load() }
-func (x *Bool) Store(v bool) { pt(unsafe.Pointer(x), "Bool.Store"); x.real.Store(v) }
+func (x *Bool) Load() bool       { pt(unsafe.Pointer(x), "Bool.Load"); return x.real.Load() }
+func (x *Bool) Store(v bool)     { pt(unsafe.Pointer(x), "Bool.Store"); x.real.Store(v) }
 func (x *Bool) Swap(v bool) bool { pt(unsafe.Pointer(x), "Bool.Swap"); return x.real.Swap(v) }
 func (x *Bool) CompareAndSwap(o, n bool) bool {
 	pt(unsafe.Pointer(x), "Bool.CompareAndSwap")
@@ -111,9 +135,9 @@ func (x *Bool) CompareAndSwap(o, n bool) bool {
 
 type Int32 struct{ real atomic.Int32 }
 
-func (x *Int32) Load() int32   { pt(unsafe.Pointer(x), "Int32.Load"); return x.real.Load() }
-func (x *Int32) Store(v int32) { pt(unsafe.Pointer(x), "Int32.Store"); x.real.Store(v) }
-func (x *Int32) Add(d int32) int32 { pt(unsafe.Pointer(x), "Int32.Add"); return x.real.Add(d) }
+func (x *Int32) Load() int32        { pt(unsafe.Pointer(x), "Int32.Load"); return x.real.Load() }
+func (x *Int32) Store(v int32)      { pt(unsafe.Pointer(x), "Int32.Store"); x.real.Store(v) }
+func (x *Int32) Add(d int32) int32  { pt(unsafe.Pointer(x), "Int32.Add"); return x.real.Add(d) }
 func (x *Int32) Swap(v int32) int32 { pt(unsafe.Pointer(x), "Int32.Swap"); return x.real.Swap(v) }
 func (x *Int32) CompareAndSwap(o, n int32) bool {
 	pt(unsafe.Pointer(x), "Int32.CompareAndSwap")
@@ -122,9 +146,9 @@ func (x *Int32) CompareAndSwap(o, n int32) bool {
 
 type Int64 struct{ real atomic.Int64 }
 
-func (x *Int64) Load() int64   { pt(unsafe.Pointer(x), "Int64.Load"); return x.real.Load() }
-func (x *Int64) Store(v int64) { pt(unsafe.Pointer(x), "Int64.Store"); x.real.Store(v) }
-func (x *Int64) Add(d int64) int64 { pt(unsafe.Pointer(x), "Int64.Add"); return x.real.Add(d) }
+func (x *Int64) Load() int64        { pt(unsafe.Pointer(x), "Int64.Load"); return x.real.Load() }
+func (x *Int64) Store(v int64)      { pt(unsafe.Pointer(x), "Int64.Store"); x.real.Store(v) }
+func (x *Int64) Add(d int64) int64  { pt(unsafe.Pointer(x), "Int64.Add"); return x.real.Add(d) }
 func (x *Int64) Swap(v int64) int64 { pt(unsafe.Pointer(x), "Int64.Swap"); return x.real.Swap(v) }
 func (x *Int64) CompareAndSwap(o, n int64) bool {
 	pt(unsafe.Pointer(x), "Int64.CompareAndSwap")
@@ -133,8 +157,8 @@ func (x *Int64) CompareAndSwap(o, n int64) bool {
 
 type Uint32 struct{ real atomic.Uint32 }
 
-func (x *Uint32) Load() uint32   { pt(unsafe.Pointer(x), "Uint32.Load"); return x.real.Load() }
-func (x *Uint32) Store(v uint32) { pt(unsafe.Pointer(x), "Uint32.Store"); x.real.Store(v) }
+func (x *Uint32) Load() uint32        { pt(unsafe.Pointer(x), "Uint32.Load"); return x.real.Load() }
+func (x *Uint32) Store(v uint32)      { pt(unsafe.Pointer(x), "Uint32.Store"); x.real.Store(v) }
 func (x *Uint32) Add(d uint32) uint32 { pt(unsafe.Pointer(x), "Uint32.Add"); return x.real.Add(d) }
 func (x *Uint32) CompareAndSwap(o, n uint32) bool {
 	pt(unsafe.Pointer(x), "Uint32.CompareAndSwap")
@@ -143,8 +167,8 @@ func (x *Uint32) CompareAndSwap(o, n uint32) bool {
 
 type Uint64 struct{ real atomic.Uint64 }
 
-func (x *Uint64) Load() uint64   { pt(unsafe.Pointer(x), "Uint64.Load"); return x.real.Load() }
-func (x *Uint64) Store(v uint64) { pt(unsafe.Pointer(x), "Uint64.Store"); x.real.Store(v) }
+func (x *Uint64) Load() uint64        { pt(unsafe.Pointer(x), "Uint64.Load"); return x.real.Load() }
+func (x *Uint64) Store(v uint64)      { pt(unsafe.Pointer(x), "Uint64.Store"); x.real.Store(v) }
 func (x *Uint64) Add(d uint64) uint64 { pt(unsafe.Pointer(x), "Uint64.Add"); return x.real.Add(d) }
 func (x *Uint64) CompareAndSwap(o, n uint64) bool {
 	pt(unsafe.Pointer(x), "Uint64.CompareAndSwap")
@@ -153,8 +177,8 @@ func (x *Uint64) CompareAndSwap(o, n uint64) bool {
 
 type Pointer[T any] struct{ real atomic.Pointer[T] }
 
-func (x *Pointer[T]) Load() *T   { pt(unsafe.Pointer(x), "Pointer.Load"); return x.real.Load() }
-func (x *Pointer[T]) Store(v *T) { pt(unsafe.Pointer(x), "Pointer.Store"); x.real.Store(v) }
+func (x *Pointer[T]) Load() *T     { pt(unsafe.Pointer(x), "Pointer.Load"); return x.real.Load() }
+func (x *Pointer[T]) Store(v *T)   { pt(unsafe.Pointer(x), "Pointer.Store"); x.real.Store(v) }
 func (x *Pointer[T]) Swap(v *T) *T { pt(unsafe.Pointer(x), "Pointer.Swap"); return x.real.Swap(v) }
 func (x *Pointer[T]) CompareAndSwap(o, n *T) bool {
 	pt(unsafe.Pointer(x), "Pointer.CompareAndSwap")
